@@ -1,20 +1,49 @@
 /-
-  Spec side of pg_filenode.map (src/backend/utils/cache/relmapper.c, PostgreSQL 12–15 layout with
-  MAX_MAPPINGS = 62): magic i32 0x592717, num_mappings i32, 62 × {mapoid, mapfilenode}, crc u32 @504,
-  padding to 512.  Unused mapping slots may hold anything (PostgreSQL leaves them zero).
+  Spec side of pg_filenode.map (src/backend/utils/cache/relmapper.c).  Two layouts, same magic 0x592717:
+
+    PostgreSQL 12–15   MAX_MAPPINGS = 62:  magic i32, num_mappings i32, 62 × {mapoid, mapfilenode}, crc u32 @504,
+                       pad i32 @508; sizeof(RelMapFile) = 512
+    PostgreSQL 16      MAX_MAPPINGS = 64 (commit d8cd0c6c95, "Remove the restriction that the relmap must be 512
+                       bytes"): magic, num_mappings, 64 × {mapoid, mapfilenode}, crc u32 @520, no padding;
+                       sizeof(RelMapFile) = 524
+
+  PostgreSQL writes and reads exactly sizeof(RelMapFile) bytes, so a genuine file is 512 bytes long up to
+  version 15 and 524 bytes long in version 16; a reader tells the layouts apart by the file size.  The crc is the
+  CRC-32C of the bytes before it.  Unused mapping slots may hold anything (PostgreSQL leaves them zero).
+  (The PostgreSQL 16 numbers are from the relmapper.c source as I know it; there is no PostgreSQL source or
+  PostgreSQL 16 cluster in the sandbox to anchor them on.)
 -/
 import PgVerif.Basic.Bytes
 namespace PgVerif.Spec
 open PgVerif
 
 def relmapMagic : Nat := 0x592717
+/-- MAX_MAPPINGS of PostgreSQL 12–15 -/
 def relmapMax : Nat := 62
+/-- MAX_MAPPINGS of PostgreSQL 16 -/
+def relmapMax16 : Nat := 64
+
+/-- the two on-disk layouts -/
+inductive RelMapLayout where
+  | v12    -- PostgreSQL 12, 13, 14, 15
+  | v16    -- PostgreSQL 16
+deriving Repr, DecidableEq, Inhabited
+
+def RelMapLayout.maxMappings : RelMapLayout → Nat | .v12 => 62 | .v16 => 64
+def RelMapLayout.padLen : RelMapLayout → Nat | .v12 => 4 | .v16 => 0
+/-- offsetof(RelMapFile, crc) -/
+def RelMapLayout.crcOffset (l : RelMapLayout) : Nat := 8 + 8 * l.maxMappings
+/-- sizeof(RelMapFile) -/
+def RelMapLayout.size (l : RelMapLayout) : Nat := l.crcOffset + 4 + l.padLen
+
+example : RelMapLayout.v12.size = 512 ∧ RelMapLayout.v12.crcOffset = 504 ∧
+    RelMapLayout.v16.size = 524 ∧ RelMapLayout.v16.crcOffset = 520 := by decide
 
 structure RelMap where
   mappings : List (Nat × Nat)      -- (oid, filenode) in stored order; duplicates allowed
-  unused : Bytes                   -- the unused slots: 8·(62 − n) bytes
+  unused : Bytes                   -- the unused slots: 8·(MAX_MAPPINGS − n) bytes
   crc : Nat
-  pad : Bytes                      -- 4 bytes after the crc
+  pad : Bytes                      -- 4 bytes after the crc (12–15), nothing (16)
 deriving Repr, DecidableEq, Inhabited
 
 def encMapping (m : Nat × Nat) : Bytes := le 4 m.1 ++ le 4 m.2
@@ -25,11 +54,29 @@ def encRelMapRaw (magic count : Nat) (m : RelMap) : Bytes :=
 
 def encRelMap (m : RelMap) : Bytes := encRelMapRaw relmapMagic m.mappings.length m
 
+/-- a map that fits layout `l` -/
+def RelMap.WFL (l : RelMapLayout) (m : RelMap) : Prop :=
+  m.mappings.length ≤ l.maxMappings ∧ m.unused.length = 8 * (l.maxMappings - m.mappings.length) ∧
+  m.crc < 2 ^ 32 ∧ m.pad.length = l.padLen ∧ ∀ e ∈ m.mappings, e.1 < 2 ^ 32 ∧ e.2 < 2 ^ 32
+
+instance RelMap.decWFL (l : RelMapLayout) (m : RelMap) : Decidable (m.WFL l) := by unfold RelMap.WFL; infer_instance
+
+/-- PostgreSQL 12–15 -/
 def RelMap.WF (m : RelMap) : Prop :=
   m.mappings.length ≤ relmapMax ∧ m.unused.length = 8 * (relmapMax - m.mappings.length) ∧
   m.crc < 2 ^ 32 ∧ m.pad.length = 4 ∧ ∀ e ∈ m.mappings, e.1 < 2 ^ 32 ∧ e.2 < 2 ^ 32
 
 instance RelMap.decWF (m : RelMap) : Decidable m.WF := by unfold RelMap.WF; infer_instance
+
+/-- PostgreSQL 16 -/
+def RelMap.WF16 (m : RelMap) : Prop :=
+  m.mappings.length ≤ relmapMax16 ∧ m.unused.length = 8 * (relmapMax16 - m.mappings.length) ∧
+  m.crc < 2 ^ 32 ∧ m.pad.length = 0 ∧ ∀ e ∈ m.mappings, e.1 < 2 ^ 32 ∧ e.2 < 2 ^ 32
+
+instance RelMap.decWF16 (m : RelMap) : Decidable m.WF16 := by unfold RelMap.WF16; infer_instance
+
+theorem RelMap.WF_iff (m : RelMap) : m.WF ↔ m.WFL .v12 := Iff.rfl
+theorem RelMap.WF16_iff (m : RelMap) : m.WF16 ↔ m.WFL .v16 := Iff.rfl
 
 /-- lookups: first stored match or 0 -/
 def filenodeOf (ms : List (Nat × Nat)) (oid : Nat) : Nat :=
